@@ -1187,7 +1187,7 @@ def run_all(ctx, cases, rounds):
 
 def run(ctx):
     if ctx.quick():
-        cases = build_cases(ctx, 19, 5, 4)
+        cases = build_cases(ctx, 16, 4, 3)
         run_all(ctx, cases, 1)
     else:
         cases = build_cases(ctx, 420, 120, 60)
